@@ -54,17 +54,17 @@ theorem tryAcquire_sim (cf : Conf) (now : Int) (b : Br) (sb : SBr) (h : BRel cf 
   | opened =>
     rw [hs] at hst
     subst hst
-    simp only [stS, hou]
+    simp only [stS]
+    unfold openToHalfOpen afterOpenCheck
+    simp only [hs, ne_eq, not_true_eq_false, if_false, hou]
     by_cases hlt : now < sou
     · simp only [hlt, if_true]; exact ⟨trivial, h⟩
     · simp only [hlt, if_false]
-      have hb' : BRel cf (transitionTo cf now .halfOpen b)
-          ⟨.halfOpen, sou, spr, ⟨swin.q.map (fun _ => (0, 0)), now⟩⟩ := by
-        unfold transitionTo
-        simp only [hs, reduceCtorEq, if_false]
-        exact ⟨rfl, h.ou, h.sem, rw_hardReset cf.num now b.w swin h.win⟩
+      have hb' : BRel cf { b with w := b.w.hardReset now, state := .halfOpen }
+          ⟨.halfOpen, sou, spr, ⟨swin.q.map (fun _ => (0, 0)), now⟩⟩ :=
+        ⟨rfl, h.ou, h.sem, rw_hardReset cf.num now b.w swin h.win⟩
       have := trySem_sim cf _ _ hb'
-      simp only [toSConf] at this ⊢
+      simp only [toSConf, hou] at this ⊢
       by_cases hc : spr < cf.hmax
       · simp only [hc, if_true] at this ⊢; exact this
       · simp only [hc, if_false] at this ⊢; exact this
@@ -82,8 +82,7 @@ theorem tryAcquire_sim (cf : Conf) (now : Int) (b : Br) (sb : SBr) (h : BRel cf 
 def recordDecide (cf : Conf) (now : Int) (b1 : Br) (t : Nat × Nat) : Br :=
   if !enough cf t then b1
   else if tripped cf t then transitionTo cf now .opened b1
-  else if b1.state = .halfOpen then transitionTo cf now .closed b1
-  else b1
+  else halfOpenToClosed now b1
 
 def observeDecide (cf : SConf) (now : Int) (b1 : SBr) : SBr :=
   let s := sumS b1.win.q
@@ -139,19 +138,18 @@ theorem decide_sim (cf : Conf) (now : Int) (b1 : Br) (sb1 : SBr) (h : BRel cf b1
         exact ⟨rfl, rfl, h.sem, h.win⟩
     · have htr' : ¬ sumF swin.q * cf.q ≥ cf.p * (sumS swin.q + sumF swin.q) := htr
       simp only [htr, decide_false, Bool.false_eq_true, if_false]
+      unfold halfOpenToClosed
       cases hs : b1.state with
       | halfOpen =>
         rw [hs] at hst; subst hst
-        simp only [stS, if_true]
-        unfold transitionTo
-        simp only [hs, reduceCtorEq, if_false]
+        simp only [stS, ne_eq, not_true_eq_false, if_false, if_true]
         exact ⟨rfl, h.ou, h.sem, rw_hardReset cf.num now b1.w swin hwin⟩
       | closed =>
         rw [hs] at hst; subst hst
-        simp only [stS, reduceCtorEq, if_false]; exact h
+        simp only [stS, ne_eq, reduceCtorEq, not_false_eq_true, if_true, if_false]; exact h
       | opened =>
         rw [hs] at hst; subst hst
-        simp only [stS, reduceCtorEq, if_false]; exact h
+        simp only [stS, ne_eq, reduceCtorEq, not_false_eq_true, if_true, if_false]; exact h
 
 theorem record_sim (cf : Conf) (hok : ConfOk cf) (now : Int) (success : Bool) (b : Br) (sb : SBr) (h : BRel cf b sb) :
     BRel cf (record cf now success b) (sb.observe (toSConf cf) now success) := by
